@@ -842,6 +842,12 @@ def level(ctx, shards, name):
 
 
 def run(ctx):
+    _run_sequential(ctx)
+    from vf.harness import c04conc
+    c04conc.run_conc(ctx)       # two connections changing the same parameter at once (schedx)
+
+
+def _run_sequential(ctx):
     b = bounds(ctx.tier)
     shapes = G.shapes(ctx.tier)
     byname = {s['name']: s for s in shapes}
@@ -909,6 +915,9 @@ def run(ctx):
 
 
 def replay(case):
+    if case.get('kind') == 'conc':
+        from vf.harness import c04conc
+        return c04conc.replay_conc(case)
     part = core.Part()
     run_case(part, case)
     part.evaluations = part.traces = 1
